@@ -73,6 +73,36 @@ fn sim_main() -> i32 {
     exit_code_to_u8(fastpasta::util::lib::exit(exit_code, &any_errors_flag))
 }
 
+/// C06: one sequential pass of the input's packets through one real link validator, on this thread.
+fn seq_pass_main(input: &[u8]) -> i32 {
+    use alice_protocol_reader::prelude::*;
+    use fastpasta::analyze::validators::link_validator::LinkValidator;
+    let (tx, rx) = flume::unbounded::<StatType>();
+    let (mut lv, data_tx) = LinkValidator::<RdhCru, Cfg>::new(Cfg::global(), tx);
+    let w = itsgen::walker::walk(input);
+    let skip = Cfg::global().skip_payload();
+    for p in &w.pkts {
+        let rdh = RdhCru::load(&mut &input[p.off..p.off + 64]).expect("rdh");
+        let payload = if skip { Vec::new() } else { input[p.payload.clone()].to_vec() };
+        data_tx.send((rdh, payload, p.off as u64)).expect("send to link validator");
+    }
+    drop(data_tx);
+    lv.run();
+    drop(lv);
+    let mut msgs: Vec<(u64, String)> = Vec::new();
+    while let Ok(m) = rx.try_recv() {
+        if let StatType::Error(e) = m {
+            let off = crate::oracle::parse_err_text(&crate::oracle::strip_ansi(&e)).offset.unwrap_or(u64::MAX);
+            msgs.push((off, e.to_string()));
+        }
+    }
+    msgs.sort_by_key(|(o, _)| *o); // stable: same rule as the collector
+    for (_, m) in &msgs {
+        fastpasta::display_error(m);
+    }
+    0
+}
+
 /// Returns (status, config_rejected)
 fn configure_and_run(argv: &[String]) -> (i32, bool) {
     let mut full: Vec<String> = vec!["fastpasta".to_string()];
@@ -97,11 +127,21 @@ fn configure_and_run(argv: &[String]) -> (i32, bool) {
     if Cfg::global().generate_completions.is_some() {
         return (0, false);
     }
+    if let Some(input) = SEQ_PASS_INPUT.with(|c| c.borrow_mut().take()) {
+        return (seq_pass_main(&input), false);
+    }
     (sim_main(), false)
+}
+
+thread_local! {
+    static SEQ_PASS_INPUT: std::cell::RefCell<Option<Vec<u8>>> = const { std::cell::RefCell::new(None) };
 }
 
 pub fn child_main(spec: &ExecSpec, argv: &[String], input_id: Option<(u64, u64)>) -> ExecResult {
     install_panic_hook();
+    if spec.seq_pass {
+        SEQ_PASS_INPUT.with(|c| *c.borrow_mut() = Some(spec.input.clone()));
+    }
     fpsim_rt::io::begin(io_plan(spec, input_id));
     let cfg = run_config(spec);
     let r = fpsim_rt::run(cfg, || {
